@@ -13,7 +13,7 @@ ACKS = [-1, 0, 1, 2]
 CORPUS = [
     "", "0", "1", "2", "-1", "100", "101", "100.0", "100.01", "1e2", "nan", "inf", "-inf", " 5", "٥", "0x10", "1_0",
     "Off", "off", "HeatOn", "CoolOn", "AutoChangeOver", "Min", "min", "Normal", "Max", "Auto", "ff0000", "FF0000", "ff000",
-    "ff00000", "gg0000", "ff0000ff", "ff0000f", "fffffffff", "ｆｆ0000", "1,2,3", "1,2", "1,2,3,4", "a,b,c", " 1, 2 ,3", "1,2,", "M", "I",
+    "ff00000", "gg0000", "ff0000ff", "ff0000f", "fffffffff", "ｆｆ0000", " ff 80", "ff 80 00", "ff\t0000", "0xff00", "ff00 00f", "1,2,3", "1,2", "1,2,3,4", "a,b,c", " 1, 2 ,3", "1,2,", "M", "I",
     "m", "255", "254", "253", "1.4", "1.3", "1.4.0", "1.3.9", "1.10", "2", "2.2.0", "9.9.9", "abc", "0.5", "-0.5", "-1.0", "-1.01",
     "1.0", "1.01", "50", "99", "+7", "٣٠", "text with blanks", "x" * 300, "0.0", "00", "1 ", "stable", "é",
 ]
@@ -164,6 +164,36 @@ def table_checks():
     return viols, n
 
 
+def check_load_order(chunk):
+    """The const modules are lazily loaded, cached globals that build on each other: judge the sub-type
+    boundary of every version again after every other version has been used, in both orders, in ONE process."""
+    logging.disable(logging.CRITICAL)
+    viols, stats, samples = [], collections.Counter(), []
+    for order in chunk:
+        versions = list(ref_valid.VERSIONS)
+        if order == "descending":
+            versions.reverse()
+        lines = []
+        for _ in range(2):  # second sweep: every version is judged after all others were loaded
+            for version in versions:
+                table = ref_valid.TABLES[version]
+                for cmd in table:
+                    top = max(table[cmd])
+                    for sub in (top - 1, top, top + 1, top + 2, top + 5):
+                        rule = table[cmd].get(sub)
+                        child = 255 if cmd in (3, 4) or (cmd == 0 and sub in (17, 18)) else 0
+                        lines.append((version, f"1;{child};{cmd};0;{sub};{GOOD[rule] if rule else ''}"))
+                        lines.append((version, f"1;{child};{cmd};0;{sub};x"))
+        v, st, sm = check_lines(lines)
+        for viol in v:
+            viol.signature = "load-order|" + viol.signature
+            viol.replay = {"kind": "input", "check": PROP, "case": ["load-order", order]}
+        viols.extend(v)
+        stats["load_order_lines"] += len(lines)
+        samples.append(["load-order", order, len(lines)])
+    return viols, stats, samples
+
+
 def grid(tier):
     versions = ref_valid.VERSIONS
     lines = []
@@ -200,10 +230,11 @@ def run(tier):
     kids = [(v, pt) for v in ref_valid.VERSIONS for pt in ref_valid.VALUE_TYPES[v]]
     v2, s2, m2 = e5.pmap(check_children, kids)
     v3, ntab = table_checks()
-    report.add_all(v1 + v2 + v3)
-    stats = s1 + s2
+    v4, s4, m4 = e5.pmap(check_load_order, ["ascending", "descending"], parts=2)
+    report.add_all(v1 + v2 + v3 + v4)
+    stats = s1 + s2 + s4
     cov = report.coverage
-    cov["evaluations"] = stats["lines"] + stats["child_schema_cases"] + ntab
+    cov["evaluations"] = stats["lines"] + stats["child_schema_cases"] + ntab + stats["load_order_lines"]
     cov["distinct_nontrivial"] = len(set(lines)) - stats["unspec_skipped"]
     cov["rule"] = (
         "header grid: version x command -1..5 x sub-type -1..max+2 x node {-1,0,1,254,255,256} x child {same} x ack {-1,0,1,2} "
@@ -225,7 +256,7 @@ def run(tier):
 def replay(data):
     case = data["replay"]["case"]
     logging.disable(logging.CRITICAL)
-    if case[0] == "tables" or (len(case) > 1 and case[1] == "child"):
+    if case[0] in ("tables", "load-order") or (len(case) > 1 and case[1] == "child"):
         print("table/child-schema case: re-running the whole check")
         return run("quick")
     viols, _, _ = check_lines([(case[0], case[1])])
